@@ -45,3 +45,18 @@ Theorem C04_rgb_fade_rounding_witness :
   canon (fst (hrrun (9, 10, 11)%Z (black (9, 10, 11)%Z) w_ops)) = ([(50, 9, 1)], 50)%Z.
 Proof. exact rgb_fade_half_values. Qed.
 Print Assumptions C04_rgb_fade_rounding_witness.
+
+(* C04_rgb_partial (what is proved of device = host for the RGB LED): for every history of set_color / on / off
+   commands with int components 0..255 the firmware's analogWrite trace IS the host's level trace, hence the same
+   canonical signal, and no host call raises.  fade and blink are covered by the correspondence and the oracle
+   (and by the clamp theorems above), not by a simulation theorem: see the evidence. *)
+Theorem C04_rgb_set_partial : forall p ops, forallb set_only ops = true ->
+  canon (drtr p drinit ops) = canon (fst (hrrun p (black p) ops)) /\ snd (hrrun p (black p) ops) = true.
+Proof. exact rgb_set_canon. Qed.
+Print Assumptions C04_rgb_set_partial.
+
+Example C04_rgb_set_guard_inhabited :
+  forallb set_only [On (PI 255) (PI 0) (PB true); SetColor (PI 1) (PI 128) (PI 254); Off] = true /\
+  length (fst (canon (drtr (9, 10, 11)%Z drinit [On (PI 255) (PI 0) (PB true); SetColor (PI 1) (PI 128) (PI 254); Off]))) = 8%nat.
+Proof. vm_compute. split; reflexivity. Qed.
+Print Assumptions C04_rgb_set_guard_inhabited.
